@@ -89,8 +89,9 @@ def harness_gen(profile, seed, count, path):
         tool_error(f"scenario generation failed for profile {profile}: {out[-500:]}")
 
 
-def harness_run(scen_path, trace_path, timeout, runner="run"):
-    rc, out = run(f"{BIN} {runner} --scenarios {scen_path} --out {trace_path}", timeout)
+def harness_run(scen_path, trace_path, timeout, runner="run", locks=None):
+    extra = f" --locks {locks}" if locks else ""
+    rc, out = run(f"{BIN} {runner} --scenarios {scen_path} --out {trace_path}{extra}", timeout)
     summary, hang = [], None
     for line in out.splitlines():
         if line.startswith("SUMMARY "):
